@@ -44,8 +44,95 @@ let strip_truth op =
   let n = String.length op in
   if n > 3 && op.[n - 3] = '_' && op.[n - 2] = 't' && op.[n - 1] >= '1' && op.[n - 1] <= '4' then String.sub op 0 (n - 3) else op
 
+
+(* ---- fix-miss round 5: "nx_<alg> <tp> <o> ...": the numeric folds on heterogeneous arithmetic types (coq/C06b/ModelNumT.v).
+   Values are IEEE doubles (exact for every type of the run: 8/32-bit integers, integers below 2^53, float, double); `nx_conv`
+   is the conversion to the type (integer types: truncation towards zero, then modulo 2^N; float: rounding to single), `nx_arith`
+   the operation inside one type (signed overflow = the model leg `ub`; for + - * the double result rounded to single IS the
+   single-precision result).  Tokens of a floating-point range / init are halves; results are printed scaled by 64. *)
+exception Nx_ub
+let f32 (x : float) = Int32.float_of_bits (Int32.bits_of_float x)
+let wrap_to bits signed y =
+  let m = Float.ldexp 1.0 bits in
+  let r = Float.rem y m in
+  let r = if r < 0.0 then r +. m else r in
+  if signed && r >= m /. 2.0 then r -. m else r
+let nx_conv (t : nty) (x : float) : float =
+  match t with
+  | NF64 -> x
+  | NF32 -> f32 x
+  | NU8 -> if Float.abs x >= 9.0e15 then raise Nx_ub else wrap_to 8 false (Float.trunc x)
+  | NI32 -> if Float.abs x >= 9.0e15 then raise Nx_ub else wrap_to 32 true (Float.trunc x)
+  | NI64 -> if Float.abs x >= 9.0e15 then raise Nx_ub else Float.trunc x
+let nx_arith (o : nat) (t : nty) (x : float) (y : float) : float =
+  let r = match o with O -> x +. y | S O -> x -. y | _ -> x *. y in
+  match t with
+  | NF64 -> r
+  | NF32 -> f32 r
+  | NI32 -> if r < -2147483648.0 || r >= 2147483648.0 then raise Nx_ub else r
+  | NI64 -> if Float.abs r >= 9.0e15 then raise Nx_ub else r
+  | NU8 -> raise Nx_ub   (* never: unsigned char is promoted *)
+let nx_types = function
+  | 0 -> (NF64, NF64, NI32, NI32) | 1 -> (NI32, NI32, NF32, NF32) | 2 -> (NI32, NI32, NU8, NU8) | 3 -> (NI32, NF64, NF64, NF64)
+  | 4 -> (NF64, NI32, NI32, NF64) | 5 -> (NU8, NU8, NI32, NI32) | 6 -> (NI64, NI32, NI32, NI32) | 7 -> (NF32, NF32, NF64, NF64)
+  | 8 -> (NI32, NI32, NI64, NI64) | 9 -> (NU8, NI32, NU8, NU8) | 10 -> (NI32, NI32, NF64, NI32) | _ -> raise Not_found
+let nx_dec (t : nty) (k : int) : float tv =
+  { ty = t; val0 = (match t with NF32 | NF64 -> float_of_int k /. 2.0 | _ -> float_of_int k) }
+let nx_tyname = function NU8 -> "u8" | NI32 -> "i32" | NI64 -> "i64" | NF32 -> "f32" | NF64 -> "f64"
+let nx_v64 (x : float) = string_of_int (int_of_float (Float.round (x *. 64.0)))
+let nx_one (r : float tv) = join [ "ok"; nx_tyname r.ty; nx_v64 r.val0 ]
+let nx_list (d : nty) (l : float tv list) =
+  join ("ok" :: nx_tyname d :: string_of_int (List.length l) :: List.map (fun (r : float tv) -> nx_v64 r.val0) l)
+let nx_guard f = try f () with Nx_ub -> "ub"
+let nx_case alg t =
+  let (e1, e2, ty_t, ty_d) = nx_types (next_int t) in
+  let o = next_int t in
+  let cv = nx_conv and ar = nx_arith in
+  let n_ k = nat_of_int k in
+  match alg with
+  | "accumulate" ->
+      let init = nx_dec ty_t (next_int t) in let l = List.map (nx_dec e1) (next_intlist t) in
+      (nx_guard (fun () -> nx_one (accumulate_t cv ar (n_ o) ty_t l init)), nx_guard (fun () -> nx_one (accumulate_ts cv ar (n_ o) ty_t l init)))
+  | "reduce" ->
+      let d = next_bool t in
+      let init = nx_dec ty_t (next_int t) in let l = List.map (nx_dec e1) (next_intlist t) in
+      if o = 3 then
+        (nx_guard (fun () -> nx_one (reduce0_t cv ar 0.0 e1 l)), dom d (nx_guard (fun () -> nx_one (accumulate_ts cv ar O e1 l { ty = e1; val0 = 0.0 }))))
+      else
+        let k = if o = 1 then n_ 1 else O in
+        (nx_guard (fun () -> nx_one (reduce_t cv ar k ty_t l init)), dom d (nx_guard (fun () -> nx_one (accumulate_ts cv ar k ty_t l init))))
+  | "inner_product" | "transform_reduce" ->
+      let d = next_bool t in
+      let init = nx_dec ty_t (next_int t) in
+      let l1 = List.map (nx_dec e1) (next_intlist t) in let l2 = List.map (nx_dec e2) (next_intlist t) in
+      let (o1, o2) = if o = 2 then (n_ 1, O) else (O, n_ 2) in
+      let m () =
+        if alg = "inner_product" then rres nx_one (inner_product_t cv ar o1 o2 ty_t l1 l2 init)
+        else if o = 0 then rres nx_one (transform_reduce4_t cv ar ty_t l1 l2 init)
+        else rres nx_one (transform_reduce_t cv ar o1 o2 ty_t l1 l2 init) in
+      (nx_guard m, dom (alg = "inner_product" || d) (nx_guard (fun () -> nx_one (inner_product_ts cv ar o1 o2 ty_t l1 l2 init))))
+  | "transform_reduce1" ->
+      let d = next_bool t in
+      let init = nx_dec ty_t (next_int t) in let l = List.map (nx_dec e1) (next_intlist t) in
+      (nx_guard (fun () -> nx_one (transform_reduce1_t cv ar (n_ o) ty_t l init)),
+       dom d (nx_guard (fun () -> nx_one (transform_reduce1_ts cv ar (n_ o) ty_t l init))))
+  | "partial_sum" ->
+      let l = List.map (nx_dec e1) (next_intlist t) in
+      let k = if o = 1 then n_ 1 else O in
+      (nx_guard (fun () -> nx_list ty_d (partial_sum_t cv ar k e1 ty_d l)), nx_guard (fun () -> nx_list ty_d (partial_sum_ts cv ar k e1 ty_d l)))
+  | "adjacent_difference" ->
+      let l = List.map (nx_dec e1) (next_intlist t) in
+      let (dflt, k) = if o = 0 then (true, O) else if o = 1 then (false, O) else (false, n_ 1) in
+      (nx_guard (fun () -> nx_list ty_d (adjacent_difference_t cv ar dflt k e1 ty_d l)),
+       nx_guard (fun () -> nx_list ty_d (adjacent_difference_ts cv ar dflt k e1 ty_d l)))
+  | "iota" ->
+      let n = next_int t in let v = nx_dec ty_t (next_int t) in
+      (nx_guard (fun () -> nx_list ty_d (iota_t cv ar 1.0 ty_t ty_d (n_ n) v)), nx_guard (fun () -> nx_list ty_d (iota_ts cv ar 1.0 ty_t ty_d (n_ n) v)))
+  | _ -> raise Not_found
+
 let run_case op t =
   let op = strip_truth op in
+  if String.length op > 3 && String.sub op 0 3 = "nx_" then nx_case (String.sub op 3 (String.length op - 3)) t else
   match op with
   | "min" | "max" | "minmax" | "clamp" ->
       (match op with
